@@ -254,23 +254,41 @@ def run_block(block, gen_red, case):
 def units(tier):
     b = BOUNDS[tier]
     m0 = [m for m in rhs_menu(0, 2, b['coefs'], b['consts']) if row_sum(m[1]) <= .5 + 1e-12]
-    return [{'i0': i} for i in range(len(m0))]
+    out = [{'n': 2, 'i0': i} for i in range(len(m0))]
+    if tier == 'thorough':
+        m3 = [m for m in rhs_menu(0, 3, [-.5, .25], [1.], two_term=False) if row_sum(m[1]) <= .5 + 1e-12]
+        out += [{'n': 3, 'i0': i} for i in range(len(m3))]
+    return out
 
 
 def run_unit(unit, tier):
     res = core.new_result()
     dig = core.Digest()
     b = BOUNDS[tier]
-    menus = [[m for m in rhs_menu(i, 2, b['coefs'], b['consts']) if row_sum(m[1]) <= .5 + 1e-12] for i in range(2)]
+    n = unit.get('n', 2)
+    if n == 2:
+        menus = [[m for m in rhs_menu(i, 2, b['coefs'], b['consts']) if row_sum(m[1]) <= .5 + 1e-12] for i in range(2)]
+    else:
+        menus = [[m for m in rhs_menu(i, 3, [-.5, .25], [1.], two_term=False) if row_sum(m[1]) <= .5 + 1e-12] for i in range(3)]
     first = menus[0][unit['i0']]
     last = None
     try:
-        for second in menus[1]:
-            eqs = [('x', first[0]), ('y', second[0])]
-            # alias loops (x=y, y=x) are a documented user error
-            if first[0].strip() == 'y' and second[0].strip() == 'x':
+        for rest in itertools.product(*menus[1:]):
+            picks = [first] + list(rest)
+            eqs = [(NAMES[i], picks[i][0]) for i in range(n)]
+            # alias loops (x=y, y=x, longer cycles) are a documented user error
+            alias = dict((NAMES[i], picks[i][0].strip()) for i in range(n) if picks[i][0].strip() in NAMES[:n])
+            cyc = False
+            for v0 in alias:
+                seen_, cur = set(), v0
+                while cur in alias and cur not in seen_:
+                    seen_.add(cur)
+                    cur = alias[cur]
+                if cur in seen_:
+                    cyc = True
+            if cyc:
                 continue
-            simultaneous = ('y' in first[1]) and ('x' in second[1])
+            simultaneous = any(NAMES[j] in picks[i][1] and NAMES[i] in picks[j][1] for i in range(n) for j in range(n) if i != j)
             for kind, maxtime, excess, red in itertools.product(DRESS, (1, 3), (False, True), (False, True)):
                 if excess and kind in ('plain', 'user-t-endo', 'k-expr', 'loop-names'):
                     continue
